@@ -189,5 +189,13 @@ trivial = no radial; distinct = distinct (elevation runs, radial count, record c
         let (p, label) = params_for(&mut rng, i, thorough);
         let spec = gen_volume(&mut rng, &p);
         check_volume(obs, &spec, label, i);
+        // one volume in five is followed at once by a sibling: same header bytes, same file length,
+        // the same records in another order - a different volume that looks the same from outside
+        if i % 5 == 2 {
+            if let Some(sib) = spec.with_records_reordered(&mut rng) {
+                obs.count("sibling_volumes_with_the_same_header_and_length", 1);
+                check_volume(obs, &sib, "sibling-same-header-and-length", i);
+            }
+        }
     });
 }
